@@ -91,5 +91,5 @@ def loop_index_on_scalar_part(case):
 
 @known_predicate
 def c23_loop_index_on_scalar_part(case, what):
-    # the Lean model follows the proposed fix C23-4 here (it rejects), so the disagreement belongs to the finding too
+    # fixed by 5a52c09 (the entry in known/C23.json is "fixed", so this predicate suppresses nothing any more)
     return loop_index_on_scalar_part(case) and (what.startswith(ACCEPTED) or what == "disagreement:index.outcome")
